@@ -481,9 +481,14 @@ func (a *App) History(r *vk.RNG, n int) []string {
 	h := make([]string, 0, n)
 	h = append(h, "") // first request: initial empty input
 	for len(h) < n {
-		if len(al) == 0 || r.Chance(1, 7) {
+		switch {
+		case len(al) == 0 || r.Chance(1, 7):
 			h = append(h, vk.Pick(r, Junk))
-		} else {
+		case r.Chance(1, 9):
+			// a near miss of a real selector: accepted by the engine, equal to no selector
+			s := vk.Pick(r, al)
+			h = append(h, vk.Pick(r, []string{s + " ", s + "\t", s + "\r", s + "x", s + s, "0" + s, strings.ToUpper(s) + "", s + ".", s + "*", "+" + s}))
+		default:
 			h = append(h, vk.Pick(r, al))
 		}
 	}
